@@ -308,6 +308,12 @@ func (p *jprinter) val(x *JX) {
 	}
 }
 
+// oneDefectClass: a document labelled with the input class of one recorded native defect does not also spell an integer zero
+// as "-0" (the input class of another one): each recorded finding stays identified by its own inputs
+func oneDefectClass(variant string) bool {
+	return variant == "b64-escaped" || strings.HasPrefix(variant, "jsconv-")
+}
+
 func printJX(x *JX, r *rand.Rand, esc64 bool, plainZero bool) string {
 	p := &jprinter{r: r, esc64: esc64, plainZero: plainZero}
 	p.ws()
@@ -375,7 +381,7 @@ func (c *c02) run(jc J2TCase) {
 	} else if jc.Text != nil {
 		text = []byte(*jc.Text)
 	} else {
-		text = []byte(printJX(jc.J, rand.New(rand.NewSource(jc.Seed)), jc.Variant == "b64-escaped", c.prop == "c16"))
+		text = []byte(printJX(jc.J, rand.New(rand.NewSource(jc.Seed)), jc.Variant == "b64-escaped", c.prop == "c16" || oneDefectClass(jc.Variant)))
 	}
 	d, err := parseChecked(text)
 	if err != nil {
